@@ -117,6 +117,10 @@ def run(rep, wd, tier, seed):
             tid += 1
     parts = core.split(jobs, core.NCPU * (4 if tier == 'thorough' else 1))
     batches = vbsc.parallel(_drive, [(seed, p) for p in parts])
+    # four threads at once, each writing and reading its own files (blocked and unblocked mixed)
+    from . import isocheck
+    tjobs = [(seed, [(tid + 1000 * k + i, 'multi', 0, 0) for i in range(40 if tier == 'thorough' else 24)]) for k in range(8)]
+    batches += isocheck.mark_threaded(isocheck.threaded('harness.c03', '_drive', tjobs, procs=2))
     rep.sample({'trace': batches[0][0]['_desc'], 'events': [e['op'] + ':' + e['out'] for e in batches[0][0]['events']]})
     rep.sample({'trace': batches[-1][-1]['_desc']})
     vbsc.validate(rep, wd, batches, 'vbs')
